@@ -42,7 +42,9 @@ def make_manager_class():
             mw.events.append(rec)
             if mw.on_event is not None:
                 mw.on_event(self, event.name)
-            if mw.raise_events and mw.raises_left > 0 and event.name in mw.raise_events and mw.r.random() < 0.6:
+            # (not while the delivering task is being cancelled: an exception raised then replaces the
+            # CancelledError - Python semantics - and whether the pump should survive that is outside C08)
+            if mw.raise_events and mw.raises_left > 0 and event.name in mw.raise_events and not (t is not None and t.cancelling()) and mw.r.random() < 0.6:
                 # a client handler that fails: the phase this event belongs to raises
                 mw.raises_left -= 1
                 rec["raised"] = True
